@@ -64,7 +64,7 @@ pub fn template(kind: u64, form: u8, rng: &mut Rng) -> Vec<u8> {
             // data slots with unusual payload sizes (any non-empty push is accepted on fork coins)
             let n = *rng.pick(&[1usize, 2, 19, 21, 32, 33, 64, 65, 75, 76, 80, 255, 256, 300]);
             let mut v = vec![0x76, 0xa9];
-            v.extend(pf(&rng.bytes(n), form));
+            v.extend(pf(&rng.bytes(n), if n > 65_535 { 4 } else { form }));
             v.extend_from_slice(&[0x88, 0xac]);
             v
         }
@@ -547,14 +547,24 @@ pub fn fork_scripts(rng: &mut Rng, n: usize) -> Vec<Vec<u8>> {
                 let s = template(rng.below(5), *rng.pick(&[0u8, 1, 2]), rng);
                 if let Some(b) = boundaries(&s) {
                     let mut v = s.clone();
-                    let k = rng.usize(1, 3);
-                    for _ in 0..k {
-                        if let Some(bb) = boundaries(&v) {
-                            let at = *rng.pick(&bb);
-                            v.insert(at, *rng.pick(&NOOPS));
+                    if rng.chance(1, 8) {
+                        // hundreds of no-ops in one place (around the 201-operation limit of the reference
+                        // client, which is no part of what makes a template a template)
+                        let k = *rng.pick(&[150usize, 197, 198, 199, 200, 201, 202, 250, 1000]);
+                        let at = *rng.pick(&b);
+                        let ops: Vec<u8> = (0..k).map(|_| *rng.pick(&NOOPS)).collect();
+                        let tail = v.split_off(at);
+                        v.extend(ops);
+                        v.extend(tail);
+                    } else {
+                        let k = rng.usize(1, 3);
+                        for _ in 0..k {
+                            if let Some(bb) = boundaries(&v) {
+                                let at = *rng.pick(&bb);
+                                v.insert(at, *rng.pick(&NOOPS));
+                            }
                         }
                     }
-                    let _ = b;
                     out.push(v);
                 }
             }
@@ -736,7 +746,7 @@ pub fn bitcoin_scripts(rng: &mut Rng, n: usize) -> Vec<Vec<u8>> {
                 let nn = rng.below(17) as u8;
                 let mut nk = (nn as i32 + rng.range(0, 2) as i32 - 1).max(0) as usize;
                 if rng.chance(1, 12) {
-                    nk = *rng.pick(&[17usize, 20, 100, 255, 256, 257, 300]);
+                    nk = *rng.pick(&[17usize, 18, 19, 20, 20, 21, 100, 255, 256, 257, 300]);
                 }
                 let keys: Vec<Vec<u8>> = (0..nk)
                     .map(|_| {
@@ -754,8 +764,9 @@ pub fn bitcoin_scripts(rng: &mut Rng, n: usize) -> Vec<Vec<u8>> {
                             ms.remove(l - 2);
                         }
                         _ => {
+                            // the key count as a pushed byte (there is no OP_17…OP_20)
                             ms.truncate(l - 2);
-                            ms.extend(crate::ser::push(&[nn.max(1)]));
+                            ms.extend(crate::ser::push(&[if rng.coin() { nk as u8 } else { nn.max(1) }]));
                             ms.push(0xae);
                         }
                     }
